@@ -250,6 +250,27 @@ CHECKS['C18'] = dict(
          'accepted by the barectf 2 schema and rejected after conversion.',
     design='5 (C18), 3.2 (H-frontend)')
 
+CHECKS['C09'] = dict(
+    engine='h-frontend',
+    technique='Lean 4 proof over a model of the loader whose schema half is regenerated from /repo\'s schema files on every '
+              'run (translator harness/schematr.py -> Gen/Schemas.lean, interpreted by a draft-07 interpreter) and whose '
+              'Python half transcribes _create_config + verdict agreement with the real loader in both directions + the '
+              'fault catalogue (every documented constraint x every location) on the real loader',
+    text='Props/C09.lean: accepted_passed_every_stage; on the regenerated table: int_size_constraint (1..64, integers only), '
+         'opt_int_min_1/0_constraint, byte_order_constraint, identifier_constraint (letters/digits/underscore, no trailing '
+         'new-line, none of the 28 documented TSDL keywords) - each lookup_* lemma re-checks the translated schema file; '
+         'alignment_power_of_two (the a & (a-1) test passes iff a = 2^k), member_names_distinct, python_keywords_cover_docs '
+         '(keyword set regenerated from config_parse_v3.py), id_width. Partial: no single accepts -> Spec theorem over the '
+         'whole grammar. Every run: 60+ operators (sizes, alignments, kinds, unknown/missing properties, nested types, unknown '
+         'aliases/clocks/log levels/files, duplicate/reserved/invalid names, ID widths, size ordering, defaults, cycles) at '
+         'every site of generated valid configurations, plain and re-expressed through aliases/inheritance/inclusions (kept '
+         'only when the reference expansion proves the re-expression equivalent); the real loader must reject each; Lean '
+         'load3 verdict and per-stage schema verdicts must equal the real ones.',
+    note='Trusted: Lean kernel/standard axioms; the translator; PyYAML, jsonschema 3.2 semantics as transcribed; the harness. '
+         'Found and repaired in /repo: F1, F2, F3, F4, F14, F15, F16 (alias names), F18, F20. Recorded known finding: F16 '
+         '(unused alias objects are never validated).',
+    design='5 (C09), 3.3 (translators)')
+
 NOT_APPLICABLE = {
 }
 
